@@ -19,6 +19,7 @@ import (
 	"path/filepath"
 	"regexp"
 	"runtime"
+	"runtime/debug"
 	"sort"
 	"strconv"
 	"strings"
@@ -69,6 +70,9 @@ func main() {
 		var cfg sim.Config
 		if err := json.NewDecoder(os.Stdin).Decode(&cfg); err != nil {
 			fatal2("one: %v", err)
+		}
+		if os.Getenv("VERIF_STACK_X2") != "" {
+			debug.SetMaxStack(2 << 30) // see execFresh
 		}
 		res := Exec(cfg)
 		json.NewEncoder(os.Stdout).Encode(res)
@@ -134,13 +138,13 @@ type Failure struct {
 }
 
 type WorkerOut struct {
-	Stats     *Stats           `json:"stats"`
-	Failures  []Failure        `json:"failures"`
-	KnownHits map[int]int64    `json:"known_hits"`
-	KnownEx   map[int]string   `json:"known_examples"`
-	Elapsed   float64          `json:"elapsed_s"`
-	Random    int64            `json:"random_cases"`
-	System    int64            `json:"systematic_cases"`
+	Stats     *Stats         `json:"stats"`
+	Failures  []Failure      `json:"failures"`
+	KnownHits map[int]int64  `json:"known_hits"`
+	KnownEx   map[int]string `json:"known_examples"`
+	Elapsed   float64        `json:"elapsed_s"`
+	Random    int64          `json:"random_cases"`
+	System    int64          `json:"systematic_cases"`
 }
 
 type rapidSrc struct{ t *rapid.T }
@@ -157,20 +161,26 @@ type quietTB struct {
 	logs   []string
 }
 
-func (q *quietTB) Helper()                           {}
-func (q *quietTB) Name() string                      { return "bornosim" }
-func (q *quietTB) Logf(format string, a ...any)      {}
-func (q *quietTB) Log(a ...any)                      {}
-func (q *quietTB) Skipf(format string, a ...any)     {}
-func (q *quietTB) Skip(a ...any)                     {}
-func (q *quietTB) SkipNow()                          {}
-func (q *quietTB) Errorf(format string, a ...any)    { q.failed = true; q.logs = append(q.logs, fmt.Sprintf(format, a...)) }
-func (q *quietTB) Error(a ...any)                    { q.failed = true; q.logs = append(q.logs, fmt.Sprint(a...)) }
-func (q *quietTB) Fatalf(format string, a ...any)    { q.failed = true; q.logs = append(q.logs, fmt.Sprintf(format, a...)) }
-func (q *quietTB) Fatal(a ...any)                    { q.failed = true; q.logs = append(q.logs, fmt.Sprint(a...)) }
-func (q *quietTB) FailNow()                          { q.failed = true }
-func (q *quietTB) Fail()                             { q.failed = true }
-func (q *quietTB) Failed() bool                      { return q.failed }
+func (q *quietTB) Helper()                       {}
+func (q *quietTB) Name() string                  { return "bornosim" }
+func (q *quietTB) Logf(format string, a ...any)  {}
+func (q *quietTB) Log(a ...any)                  {}
+func (q *quietTB) Skipf(format string, a ...any) {}
+func (q *quietTB) Skip(a ...any)                 {}
+func (q *quietTB) SkipNow()                      {}
+func (q *quietTB) Errorf(format string, a ...any) {
+	q.failed = true
+	q.logs = append(q.logs, fmt.Sprintf(format, a...))
+}
+func (q *quietTB) Error(a ...any) { q.failed = true; q.logs = append(q.logs, fmt.Sprint(a...)) }
+func (q *quietTB) Fatalf(format string, a ...any) {
+	q.failed = true
+	q.logs = append(q.logs, fmt.Sprintf(format, a...))
+}
+func (q *quietTB) Fatal(a ...any) { q.failed = true; q.logs = append(q.logs, fmt.Sprint(a...)) }
+func (q *quietTB) FailNow()       { q.failed = true }
+func (q *quietTB) Fail()          { q.failed = true }
+func (q *quietTB) Failed() bool   { return q.failed }
 
 func worker(id, tier string, idx, W int, seed int64, out string) {
 	prop := properties[id]
@@ -364,15 +374,15 @@ func sampleOf(cs *Case) map[string]interface{} {
 // ---------------------------------------------------------------- replay
 
 type ReplayFile struct {
-	Property string    `json:"property"`
-	Class    string    `json:"class"`
-	Sig      string    `json:"sig"`
-	Message  string    `json:"message"`
-	Seed     int64     `json:"seed"`
-	Tier     string    `json:"tier"`
-	Shrunk   bool      `json:"minimised_by_rapid"`
-	Digest   string    `json:"history_digest"`
-	Case     *Case     `json:"case"`
+	Property string       `json:"property"`
+	Class    string       `json:"class"`
+	Sig      string       `json:"sig"`
+	Message  string       `json:"message"`
+	Seed     int64        `json:"seed"`
+	Tier     string       `json:"tier"`
+	Shrunk   bool         `json:"minimised_by_rapid"`
+	Digest   string       `json:"history_digest"`
+	Case     *Case        `json:"case"`
 	History  []sim.Result `json:"history,omitempty"`
 }
 
@@ -705,28 +715,28 @@ func writeEvidence(prop *Property, tier string, seed int64, st *Stats, self *Sel
 		"violations":  nViol,
 		"assumptions": prop.Assumptions,
 		"coverage": map[string]interface{}{
-			"evaluations":            st.Runs,
-			"distinct_nontrivial":    dn,
-			"rule":                   prop.Rule,
-			"samples":                samples,
-			"cases":                  st.Cases,
-			"systematic_cases":       nSystem,
-			"random_cases_rapid":     nRandom,
-			"simulated_runs":         st.Runs,
+			"evaluations":             st.Runs,
+			"distinct_nontrivial":     dn,
+			"rule":                    prop.Rule,
+			"samples":                 samples,
+			"cases":                   st.Cases,
+			"systematic_cases":        nSystem,
+			"random_cases_rapid":      nRandom,
+			"simulated_runs":          st.Runs,
 			"simulated_runs_per_hour": int64(float64(st.Runs) / wall * 3600),
-			"seeds":                  fmt.Sprintf("VERIF_SEED=%d; worker i of %d uses rapid seed %d*1000+i+1", seed, W, absSeed(seed)),
-			"logical_time_ticks":     st.Ticks,
-			"simulated_clock":        clock,
-			"faults_fired":           faults,
-			"reach_probes":           reach,
-			"counters":               other,
-			"distinct_by_measure":    distinct,
-			"distinct_measure_used":  prop.DistinctSet,
-			"components":             prop.Components,
-			"self_tests":             self,
-			"known_findings_seen":    kf,
-			"workers":                W,
-			"exhaustive":             false,
+			"seeds":                   fmt.Sprintf("VERIF_SEED=%d; worker i of %d uses rapid seed %d*1000+i+1", seed, W, absSeed(seed)),
+			"logical_time_ticks":      st.Ticks,
+			"simulated_clock":         clock,
+			"faults_fired":            faults,
+			"reach_probes":            reach,
+			"counters":                other,
+			"distinct_by_measure":     distinct,
+			"distinct_measure_used":   prop.DistinctSet,
+			"components":              prop.Components,
+			"self_tests":              self,
+			"known_findings_seen":     kf,
+			"workers":                 W,
+			"exhaustive":              false,
 		},
 	}
 	b, _ := json.MarshalIndent(ev, "", " ")
